@@ -112,16 +112,20 @@ def setup_hfc(I):
 def hfc_scenarios():
     out = []
     import itertools
-    for bits in itertools.product([0, 1, 2], [0, 1, 2]):        # 0: attribute absent / None, 1: config without _target_ (None), 2: config with _target_
+    # problem.config: -1 attribute ABSENT (a hand-written Problem), 0 None, 1 config without _target_, 2 config with _target_
+    # solver config:   0 None, 1 without _target_, 2 with _target_ ;  its embedded `problem` entry: 0 None, 2 a (possibly stale) problem config with a _target_
+    for bits in itertools.product([-1, 0, 1, 2], [0, 1, 2], [0, 2]):
+        if bits[1] == 0 and bits[2] != 0: continue
         def setup(I, bits=bits):
             vimod = I.load_module("mdpax.solvers.value_iteration").globals
-            def cfg(b, lab): return None if b == 0 else Obj("Cfg", {"_target_": None if b == 1 else "some.Target"}, label=lab)
+            def cfg(b, lab, **extra): return None if b == 0 else Obj("Cfg", dict({"_target_": None if b == 1 else "some.Target"}, **extra), label=lab)
             prob = Obj("ProblemStub", {"name": "stub"}, label="problem")
-            if bits[0] != 0: prob.attrs["config"] = cfg(bits[0], "problem_config")
-            elif True: prob.attrs["config"] = None
-            s = Obj(vimod["ValueIteration"], {"problem": prob, "config": cfg(bits[1], "config")}, label="solver")
-            return Ctx(self=s, _args=[], want=bits == (2, 2))
-        out.append((f"p{bits[0]}s{bits[1]}.", setup))
+            if bits[0] >= 0: prob.attrs["config"] = cfg(bits[0], "problem_config")
+            embedded = prob.attrs.get("config") if bits[0] == 2 and bits[2] == 2 else cfg(bits[2], "embedded_problem_config_of_another_problem")
+            s = Obj(vimod["ValueIteration"], {"problem": prob, "config": cfg(bits[1], "config", problem=embedded)}, label="solver")
+            # reconstructible from configuration <=> the PROBLEM INSTANCE carries a configuration with a target and the solver configuration has a target
+            return Ctx(self=s, _args=[], want=(bits[0] == 2 and bits[1] == 2))
+        out.append((f"p{'x' if bits[0] < 0 else bits[0]}s{bits[1]}e{bits[2]}.", setup))
     return out
 def ret_hfc(c):
     s = c["self"]; pc = s.attrs["problem"].attrs.get("config") if isinstance(s.attrs.get("problem"), Obj) else None; sc = s.attrs.get("config")
